@@ -25,7 +25,7 @@ ID = "C20"
 LEVEL = "model_checking"
 ENGINE = "E2 explicit-state BFS over import histories, one fresh interpreter per transition"
 RULE = (
-    "BFS from the empty history over 'import M' for every module M of the package (pkgutil listing + the package itself), "
+    "BFS from the empty history over 'import chartparse.M' AND 'from chartparse import M' for every module M of the package (pkgutil listing + the package itself); after each import the client's name, sys.modules[M] and the package attribute must be one module object; "
     "states merged by module-table fingerprint, to a fixed point; plus all ordered pairs (thorough: triples and seed-chosen "
     "full permutations) executed un-merged and compared with the merged graph; distinct = distinct history; non-trivial = all"
 )
